@@ -337,19 +337,19 @@ Proof.
   destruct o; cbn [sp allowed]; try exact I.
   - (* sent *)
     match goal with |- vs_inv_p _ _ _ ?S /\ _ => set (s7 := S) end.
-    assert (K1 : v_rx s7 = v_rx s1) by (unfold s7, on_packet_sent, emit; destruct (seq_gt _ _); vsimpl; reflexivity).
-    assert (K2 : v_tx s7 = v_tx s1) by (unfold s7, on_packet_sent, emit; destruct (seq_gt _ _); vsimpl; reflexivity).
-    assert (K3 : v_opts s7 = v_opts s1) by (unfold s7, on_packet_sent, emit; destruct (seq_gt _ _); vsimpl; reflexivity).
-    assert (K4 : v_state s7 = v_state s1) by (unfold s7, on_packet_sent, emit; destruct (seq_gt _ _); vsimpl; reflexivity).
+    assert (K1 : v_rx s7 = v_rx s1) by (unfold s7, on_packet_sent, emit; destruct (seq_gt _ _); [destruct (seq_gt _ _)|]; vsimpl; reflexivity).
+    assert (K2 : v_tx s7 = v_tx s1) by (unfold s7, on_packet_sent, emit; destruct (seq_gt _ _); [destruct (seq_gt _ _)|]; vsimpl; reflexivity).
+    assert (K3 : v_opts s7 = v_opts s1) by (unfold s7, on_packet_sent, emit; destruct (seq_gt _ _); [destruct (seq_gt _ _)|]; vsimpl; reflexivity).
+    assert (K4 : v_state s7 = v_state s1) by (unfold s7, on_packet_sent, emit; destruct (seq_gt _ _); [destruct (seq_gt _ _)|]; vsimpl; reflexivity).
     assert (K5 : v_segs s7 = on_sent (v_segs s1) (fs_idx f) (v_now s1))
-      by (unfold s7, on_packet_sent, emit; destruct (seq_gt _ _); vsimpl; reflexivity).
-    assert (K6 : v_ss s7 = v_ss s1) by (unfold s7, on_packet_sent, emit; destruct (seq_gt _ _); vsimpl; reflexivity).
-    assert (K7 : v_rtte s7 = v_rtte s1) by (unfold s7, on_packet_sent, emit; destruct (seq_gt _ _); vsimpl; reflexivity).
-    assert (K8 : v_recovery s7 = v_recovery s1) by (unfold s7, on_packet_sent, emit; destruct (seq_gt _ _); vsimpl; reflexivity).
+      by (unfold s7, on_packet_sent, emit; destruct (seq_gt _ _); [destruct (seq_gt _ _)|]; vsimpl; reflexivity).
+    assert (K6 : v_ss s7 = v_ss s1) by (unfold s7, on_packet_sent, emit; destruct (seq_gt _ _); [destruct (seq_gt _ _)|]; vsimpl; reflexivity).
+    assert (K7 : v_rtte s7 = v_rtte s1) by (unfold s7, on_packet_sent, emit; destruct (seq_gt _ _); [destruct (seq_gt _ _)|]; vsimpl; reflexivity).
+    assert (K8 : v_recovery s7 = v_recovery s1) by (unfold s7, on_packet_sent, emit; destruct (seq_gt _ _); [destruct (seq_gt _ _)|]; vsimpl; reflexivity).
     assert (K10 : v_sends s7 = v_sends s1 /\ v_emsg_limit s7 = v_emsg_limit s1 /\ v_restart s7 = v_restart s1 /\
                   v_inbox s7 = v_inbox s1 /\ v_inbox_closed s7 = v_inbox_closed s1 /\
                   v_rto_retransmissions s7 = v_rto_retransmissions s1)
-      by (unfold s7, on_packet_sent, emit; destruct (seq_gt _ _); vsimpl; repeat split).
+      by (unfold s7, on_packet_sent, emit; destruct (seq_gt _ _); [destruct (seq_gt _ _)|]; vsimpl; repeat split).
     destruct K10 as (K10 & K11 & K12 & K13 & K14 & K15).
     destruct (on_sent_fields (v_segs s1) (fs_idx f) (v_now s1)) as (O1 & O2 & O3).
     split.
@@ -748,18 +748,21 @@ Proof.
       rewrite Htx2, Hgr1, Hlen1. lia.
     - destruct Hrel2 as (Q1&Q2&Q3&Q4&Q5&Q6&Q7&Q8&Q9). unfold split_rel; vsimpl. repeat split; assumption. }
   destruct pe as [rewind_to payload_size| |].
-  - (* expired probe *)
-    set (s3 := set_rto_retransmissions (set_t_retransmit (VSockRec.set_segs s1 segs1) None) 0).
+  - (* expired probe: the retransmission timer (re-armed when segments remain) is not read by the
+       invariant *)
     apply Hcont.
-    + unfold s3. destruct (seq_gt _ _);
+    + destruct (seq_gt _ _);
         (eapply inv_update_gen; [exact Hinv1|..]; vsimpl; rewrite ?Hsg1, ?Hgr1, ?Hlen1, ?Hss1, ?Hrt1, ?Hrc1;
          try reflexivity; try assumption; auto; try lia; try (apply failed_ss_ok; exact I6);
          try (apply (inv_parts _ _ _ _ Hinv1))).
-    + unfold s3. destruct (seq_gt _ _); unfold ef, emsg_free in *; vsimpl; exact Hef1.
+    + destruct (seq_gt _ _); unfold ef, emsg_free in *; vsimpl; exact Hef1.
     + destruct Hrel1 as (Q1&Q2&Q3&Q4&Q5&Q6&Q7&Q8&Q9).
-      unfold s3. destruct (seq_gt _ _); unfold split_rel; vsimpl; repeat split; assumption.
-    + unfold s3. destruct (seq_gt _ _); vsimpl; reflexivity.
-  - cbn [sp]. auto.
+      destruct (seq_gt _ _); unfold split_rel; vsimpl; repeat split; assumption.
+    + destruct (seq_gt _ _); vsimpl; reflexivity.
+  - (* probe outstanding: only v_unsegmented is updated *)
+    cbn [sp]. split; [unfold vs_inv; frame_tac Hinv1|].
+    split; [unfold ef, emsg_free in *; vsimpl; exact Hef1|].
+    destruct Hrel1 as (Q1&Q2&Q3&Q4&Q5&Q6&Q7&Q8&Q9). unfold split_rel; vsimpl. repeat split; assumption.
   - apply Hcont; auto.
 Qed.
 
@@ -789,7 +792,8 @@ Proof.
     + intro H; injection H as <- _ _. rewrite E. auto.
     + destruct (t_vsock_closed t); intro H; injection H as <- _ _; cbn [upd ring g_removed]; rewrite ?E; auto.
   - intros t' r w. unfold poll_shutdown. destruct (ring t) eqn:E;
-      destruct (t_vsock_closed t); intro H; injection H as <- _ _; cbn [upd ring g_removed]; rewrite ?E; auto.
+      destruct (t_vsock_closed t); try destruct (writer_shutdown t);
+      intro H; injection H as <- _ _; cbn [upd ring g_removed]; rewrite ?E; auto.
   - intros t' w. unfold drop_writer. destruct (writer_dropped t); intro H; injection H as <- _;
       cbn [upd ring g_removed]; auto.
 Qed.
@@ -877,19 +881,45 @@ Proof.
 Qed.
 
 (* ------------------------------------------------------------------ incoming side: the Bug sites *)
-(* BugRecvInClosed / BugUnexpectedPacketInSynReceived: only from those two states *)
+(* BugUnexpectedPacketInSynReceived: only from SynReceived; there is no other Bug site in the table
+   (BugRecvInClosed is gone: a closed connection ignores what is still queued, repair of D15) *)
 Lemma state_table_no_bug (s : vsock) h :
-  v_state s <> Closed -> v_state s <> SynReceived ->
+  v_state s <> SynReceived ->
   match state_table s h with
   | TblErr _ e => e = ErrStResetReceived
   | TblDrop s' | TblContinue s' => v_state s' <> SynReceived
   end.
 Proof.
-  intros Hc Hs. unfold state_table.
+  intros Hs. unfold state_table.
   destruct (ch_type h); destruct (v_state s) eqn:Est; try congruence;
     repeat match goal with
     | |- context [if ?c then _ else _] => destruct c
     end; vsimpl; try congruence; try discriminate; auto.
+Qed.
+
+(* a closed connection ignores every packet: nothing but ST_RESET is even looked at, the state is
+   untouched, and ST_RESET reports the (non-Bug) reset error *)
+Lemma state_table_closed (s : vsock) h :
+  v_state s = Closed ->
+  state_table s h =
+    match ch_type h with
+    | ST_RESET => TblErr (set_state s Closed) ErrStResetReceived
+    | _ => TblDrop s
+    end.
+Proof.
+  intros Hc. unfold state_table. cbv zeta. rewrite Hc. destruct (ch_type h); reflexivity.
+Qed.
+
+Lemma process_incoming_closed (s : vsock) m :
+  v_state s = Closed ->
+  process_incoming_message cci s m =
+    match ch_type (m_hdr m) with
+    | ST_RESET => SErr (set_state s Closed) ErrStResetReceived
+    | _ => SOk s on_ack_result_default
+    end.
+Proof.
+  intros Hc. unfold process_incoming_message. cbv zeta. rewrite (state_table_closed s (m_hdr m) Hc).
+  destruct (ch_type (m_hdr m)); reflexivity.
 Qed.
 
 (* the SYN-ACK is sent (state SynAckSent) before anything else unless the transport is pending *)
